@@ -29,6 +29,7 @@ import json
 import os
 import signal
 import sys
+import threading
 import weakref
 import random
 
@@ -68,6 +69,7 @@ ASSUMPTIONS = ["CPython 3.12 reference counting, cycle collector and weakref cle
 CLASSES = {}
 
 MAXOPS = 60
+MAXDEPTH = 3          # nesting of destructor calls inside which scripted operations are still issued
 
 
 # --------------------------------------------------------------------------
@@ -81,14 +83,21 @@ class Box(object):
 
 
 class Dtor(object):
-    __slots__ = ("fields", "hist", "wid", "__weakref__")
+    """A destructor / free function.  `script`: operations it issues itself, the first time it is called,
+    while the call is in progress (re-entrant release of its own wrapper, of other wrappers, drops, collections,
+    random operations of the history language, or blocking until another thread has released the wrapper)."""
+    __slots__ = ("fields", "hist", "wid", "script", "ran", "own", "block", "__weakref__")
 
-    def __init__(self, hist):
+    def __init__(self, hist, script=()):
         self.fields = []
         # a strong reference: a weakref held by an object that is itself cyclic garbage is cleared by the
         # collector before the finalisers run, and the call would go unnoticed
         self.hist = hist
         self.wid = None          # wrapper this destructor belongs to; None = free function of an allocator
+        self.script = list(script)
+        self.ran = False
+        self.own = None          # index in .fields of the wrapper itself (a cycle wrapper -> destructor -> wrapper)
+        self.block = None        # (started, proceed) events of the two-thread scenario
 
     def __call__(self, arg):
         self.hist.on_call(self, arg)
@@ -122,9 +131,10 @@ class Rec(object):
         # handles
         self.addr = None
         self.target = None
+        self.early = False
 
 
-class Failure(Exception):
+class InfraTimeout(Exception):
     pass
 
 
@@ -137,7 +147,7 @@ class Hist(object):
         self.flavor = flavor
         self.ffi1 = cffi.FFI()
         self.ffi1.cdef("struct c21s { int x; int y; };")
-        self.ffi = self.ffi1 if flavor == "api" else _cffi_backend.FFI()
+        self.ffi = self.ffi1 if flavor.endswith("api") else _cffi_backend.FFI()
         self.t_structp = self.ffi1.typeof("struct c21s *")
         self.t_intp = self.ffi1.typeof("int *")
         self.t_chararr = self.ffi1.typeof("char[]")
@@ -158,6 +168,15 @@ class Hist(object):
         self.cyclic_collected = False
         self.dtor_at_dealloc = False
         self.broken = None
+        self.rel_stack = []        # releases in progress: {"target": wrapper id, "fired": bool, "idx": line index}
+        self.depth = 0             # destructor calls in progress
+        self.finalize_depth = 0    # ... of which started by the collector's tp_finalize
+        self.gc_phase = None       # None | 1 (collector clears weakrefs of the garbage) | 2 (finalizers and later)
+        self.gc_garbage = set()
+        self.gc_finalized = set()
+        self.nested_ops = 0
+        self.timeout = None
+        self.thread_done = False
         self.role = {}             # destructor object id -> "gc" (used by one ffi.gc call) | "free" (of an allocator)
 
     # ---- bookkeeping
@@ -175,7 +194,11 @@ class Hist(object):
 
         def cb(_wr, self=self, mid=mid):
             self.recs[mid].dead = True
+            if self.recs[mid].early:
+                return             # already reported together with the object it referred to
             self.deaths.append(mid)
+            if self.gc_phase == 1:
+                self.gc_garbage.add(mid)
         r.wr = weakref.ref(obj, cb)
         return r
 
@@ -183,7 +206,44 @@ class Hist(object):
         self.slots.append((rec.mid, obj))
 
     def emit(self, line, expect, what=None):
-        self.lines.append((line, expect, what or line.split(" ")[0]))
+        self.lines.append([line, expect, what or line.split(" ")[0]])
+        return len(self.lines) - 1
+
+    def dying_parents(self, dead):
+        """Handles and struct pointers drop their reference *before* their own weak references are cleared
+        (cdataowninggc_dealloc, cdataowning_dealloc): when the object they referred to is reported dead they are
+        in the middle of their deallocation.  They are reported with it.  (If one stayed alive, check_clauses
+        would see a live handle / pointer whose object is gone.)"""
+        dead = set(dead)
+        changed = True
+        while changed:
+            changed = False
+            for r in self.recs.values():
+                if r.dead or r.mid in dead:
+                    continue
+                if (r.kind == "handle" and r.target in dead) or (r.kind == "structptr" and r.sid in dead):
+                    dead.add(r.mid)
+                    r.early = True
+                    changed = True
+        return sorted(dead)
+
+    def flush_deaths(self):
+        """report what the implementation deallocated since the last report (no destructor call involved)"""
+        if not self.deaths:
+            return
+        if self.finalize_depth > 0:
+            # inside a finaliser run by the collector: the garbage is not deallocated yet (only its weak
+            # references are cleared); it is reported when gc.collect() is over
+            dead = [m for m in self.deaths if m not in self.gc_garbage]
+            self.deaths[:] = [m for m in self.deaths if m in self.gc_garbage]
+        else:
+            dead = list(self.deaths)
+            del self.deaths[:]
+        if not dead:
+            return
+        if len(set(dead)) != len(dead):
+            self.fail("an object was reported dead twice")
+        self.emit("collect " + " ".join(str(i) for i in self.dying_parents(dead)), "ok", "collect")
 
     def on_call(self, dtor, arg):
         if dtor.wid is not None:
@@ -195,9 +255,87 @@ class Hist(object):
                 return
         r = self.recs[wid]
         r.calls += 1
-        self.fired.append(wid)
         if r.orig_id is not None and id(arg) != r.orig_id:
             self.fail("destructor of wrapper %d called with an object that is not the original cdata" % wid)
+        # what started this call?
+        top = self.rel_stack[-1] if self.rel_stack else None
+        fin = False
+        if top is not None and top["target"] == wid and not top["fired"]:
+            top["fired"] = True                      # ffi.release() / __exit__ in progress on this wrapper
+            self.lines[top["idx"]][1] = "ok %d" % wid
+            kind = "release"
+        elif self.gc_phase is not None and wid in self.gc_garbage and wid not in self.gc_finalized:
+            self.gc_finalized.add(wid)               # tp_finalize run by the cycle collector
+            self.gc_phase = 2
+            self.finalize_depth += 1                 # (the garbage itself is not reported dead yet)
+            self.flush_deaths()
+            self.emit("finalize %d %s" % (wid, " ".join(str(i) for i in sorted(self.gc_garbage))), "ok %d" % wid,
+                      "finalize")
+            kind = "finalize"
+            fin = True
+        else:
+            dead = self.dying_parents(self.deaths)   # deallocation of the wrapper (it is the last that died)
+            del self.deaths[:]
+            self.emit("collect " + " ".join(str(i) for i in dead), "ok %d" % wid, "collect")
+            self.dtor_at_dealloc = True
+            kind = "dealloc"
+        self.next_id += 1                            # the activation record of the model
+        self.count("call:" + kind)
+        self.depth += 1
+        try:
+            if not dtor.ran and self.depth <= MAXDEPTH and not self.broken:
+                dtor.ran = True
+                self.run_script(dtor, wid, kind)
+        except Exception as e:
+            self.broken = "operation issued from inside a destructor raised %s: %s" % (type(e).__name__, e)
+        finally:
+            self.depth -= 1
+            self.flush_deaths()
+            if fin:
+                self.finalize_depth -= 1
+            self.emit("ret", "ok", "ret")
+
+    # ---- operations issued from inside a destructor / free callback
+    def own_ref(self, dtor, wid, kind):
+        """a reference through which the callback can reach the wrapper being finalised"""
+        for i, (mid, obj) in enumerate(self.slots):
+            r = self.recs[mid]
+            if mid == wid or (r.kind == "structptr" and r.sid == wid):
+                return (i, mid, obj)
+        if kind != "dealloc" and dtor.own is not None and dtor.own < len(dtor.fields):
+            return (None, wid, dtor.fields[dtor.own])
+        return None
+
+    def run_script(self, dtor, wid, kind):
+        for act in dtor.script:
+            if self.broken:
+                break
+            self.nested_ops += 1
+            self.count("nested:" + act)
+            if act in ("release_self", "with_self", "twice_self"):
+                x = self.own_ref(dtor, wid, kind)
+                if x is not None:
+                    self.op_release({"release_self": "release", "with_self": "with", "twice_self": "twice"}[act], x)
+                    self.count("event:reentrant-release-of-own-wrapper")
+            elif act == "release_other":
+                self.op_release(self.rng.choice(["release", "with"]))
+            elif act == "drop_self":
+                x = self.own_ref(dtor, wid, kind)
+                if x is not None and x[0] is not None:
+                    self.op_drop(x[0])
+            elif act == "drop_other":
+                self.op_drop()
+            elif act == "collect":
+                self.do_collect()
+            elif act == "random":
+                for _ in range(self.rng.randint(1, 3)):
+                    self.random_op(nested=True)
+            elif act == "block":
+                started, proceed = dtor.block
+                started.set()
+                if not proceed.wait(30):
+                    self.timeout = "the second thread did not come back"
+            self.flush_deaths()
 
     # ---- choosing operands among the references the program holds
     def held(self, pred):
@@ -208,9 +346,19 @@ class Hist(object):
         return self.rng.choice(c) if c else None
 
     # ---- the operations
-    def op_new_py(self, tag=None):
+    SCRIPT_ACTS = ["release_self", "with_self", "twice_self", "release_other", "drop_self", "drop_other", "collect",
+                   "random"]
+
+    def rand_script(self):
+        if self.rng.random() < 0.4:
+            return []
+        return [self.rng.choice(self.SCRIPT_ACTS) for _ in range(self.rng.randint(1, 3))]
+
+    def op_new_py(self, tag=None, script=None):
         tag = tag or self.rng.choice(["box", "dtor", "buf", "box"])
-        obj = Box() if tag == "box" else Dtor(self) if tag == "dtor" else Buf(b"0123456789abcdef")
+        if tag == "dtor" and script is None:
+            script = self.rand_script()
+        obj = Box() if tag == "box" else Dtor(self, script) if tag == "dtor" else Buf(b"0123456789abcdef")
         if tag == "buf":
             obj.fields = []
         r = self.new_rec(tag, obj)
@@ -250,9 +398,12 @@ class Hist(object):
             self.allocators[key] = self.ffi.new_allocator(alloc, free_obj)
         return self.allocators[key]
 
-    def op_alloc(self, struct):
-        c = self.pick(lambda r: r.kind == "dtor" and self.dtor_role(r) in (None, "free")) \
-            if self.rng.random() < 0.8 else None
+    def op_alloc(self, struct, free=None):
+        if free is not None:
+            c = free or None
+        else:
+            c = self.pick(lambda r: r.kind == "dtor" and self.dtor_role(r) in (None, "free")) \
+                if self.rng.random() < 0.8 else None
         free_mid, free_obj = (c[1], c[2]) if c else (None, None)
         if free_obj is not None:
             self.role[free_mid] = "free"
@@ -286,11 +437,11 @@ class Hist(object):
     def dtor_role(self, r):
         return self.role.get(r.mid)
 
-    def op_gc(self):
-        p = self.pick(lambda r: r.kind in ("plain", "struct", "structptr", "gcp", "frombuf", "handle", "raw"))
+    def op_gc(self, p=None, d=None):
+        p = p or self.pick(lambda r: r.kind in ("plain", "struct", "structptr", "gcp", "frombuf", "handle", "raw"))
         if p is None:
             return False
-        d = self.pick(lambda r: r.kind == "dtor" and self.dtor_role(r) is None)
+        d = d or self.pick(lambda r: r.kind == "dtor" and self.dtor_role(r) is None)
         if d is None:
             self.op_new_py("dtor")
             d = (len(self.slots) - 1,) + self.slots[-1]
@@ -308,15 +459,16 @@ class Hist(object):
         g = self.pick(lambda r: r.kind == "gcp")
         if g is None:
             return False
-        res = self.ffi.gc(g[2], None)
-        if res is not None:
-            self.fail("ffi.gc(x, None) returned %r" % (res,))
         r = self.recs[g[1]]
         if r.noned_at is None:
             r.noned_at = r.calls
             if r.calls == 0 and not r.released:
                 r.noned_first = True
         self.emit("gc_none %d" % g[1], "ok")
+        res = self.ffi.gc(g[2], None)          # may deallocate the destructor object
+        if res is not None:
+            self.fail("ffi.gc(x, None) returned %r" % (res,))
+        self.flush_deaths()
         return True
 
     def release_target(self, r):
@@ -327,42 +479,46 @@ class Hist(object):
             return self.recs[r.sid]
         return None
 
-    def op_release(self, how):
-        x = self.pick(lambda r: r.kind in ("plain", "structptr", "gcp", "frombuf", "raw"))
+    def op_release(self, how, x=None):
+        x = x or self.pick(lambda r: r.kind in ("plain", "structptr", "gcp", "frombuf", "raw"))
         if x is None:
             return False
         r = self.recs[x[1]]
-        before = len(self.fired)
         n = 2 if how == "twice" else 1
         for k in range(n):
-            if how == "with":
-                with x[2] as y:
-                    if y is not x[2]:
-                        self.fail("__enter__ did not return the cdata itself")
-                    del y
-            else:
-                self.ffi.release(x[2])
             t = self.release_target(r)
-            own = []
-            if t is not None and t.mid in self.fired[before:]:
-                self.fired.remove(t.mid)
-                own = [t.mid]
+            # the line first: what the destructor does while it runs comes after it
+            idx = self.emit("%s %d" % ("with_exit" if how == "with" else "release", x[1]), "ok")
+            ent = {"target": t.mid if t is not None else None, "fired": False, "idx": idx}
+            self.rel_stack.append(ent)
             if t is not None:
                 t.released = True
             if r.kind == "frombuf":
                 r.released = True
-            if k == 1 and own:
+            try:
+                if how == "with":
+                    with x[2] as y:
+                        if y is not x[2]:
+                            self.fail("__enter__ did not return the cdata itself")
+                        del y
+                else:
+                    self.ffi.release(x[2])
+            finally:
+                self.rel_stack.remove(ent)
+            if k == 1 and ent["fired"]:
                 self.fail("second ffi.release() called the destructor again")
-            self.emit("%s %d" % ("with_exit" if how == "with" else "release", x[1]),
-                      " ".join(["ok"] + [str(i) for i in own]))
+            self.flush_deaths()
         return True
 
-    def op_drop(self):
+    def op_drop(self, i=None):
         if not self.slots:
             return False
-        i = self.rng.randrange(len(self.slots))
-        mid, _ = self.slots.pop(i)
-        self.emit("drop_ref %d" % mid, "ok")
+        if i is None:
+            i = self.rng.randrange(len(self.slots))
+        ref = self.slots.pop(i)
+        self.emit("drop_ref %d" % ref[0], "ok")
+        del ref                    # deallocations and destructor calls happen here
+        self.flush_deaths()
         return True
 
     def op_store(self):
@@ -372,7 +528,12 @@ class Hist(object):
         # prefer targets that can close a cycle (wrappers, handles, views, struct pointers)
         cyc = [sl for sl in self.slots if self.recs[sl[0]].kind in ("gcp", "handle", "frombuf", "structptr")]
         x = self.rng.choice(cyc) if cyc and self.rng.random() < 0.6 else self.rng.choice(self.slots)
+        return self.do_store(c, x)
+
+    def do_store(self, c, x):
         c[2].fields.append(x[1])
+        if isinstance(c[2], Dtor) and c[2].wid == x[0]:
+            c[2].own = len(c[2].fields) - 1
         self.emit("store %d %d" % (c[1], x[0]), "ok")
         return True
 
@@ -380,8 +541,11 @@ class Hist(object):
         c = self.pick(lambda r: r.kind in ("box", "dtor", "buf"))
         if c is None:
             return False
-        del c[2].fields[:]
         self.emit("clear %d" % c[1], "ok")
+        if isinstance(c[2], Dtor):
+            c[2].own = None
+        del c[2].fields[:]
+        self.flush_deaths()
         return True
 
     def op_alias(self):
@@ -528,26 +692,28 @@ class Hist(object):
         return None      # no model line
 
     # ---- one step
-    def settle(self, collect):
-        """Report what the implementation deallocated (its choice) and which destructors that ran."""
-        if collect:
-            n0 = len(self.deaths)
+    def do_collect(self):
+        if self.gc_phase is not None:
+            return                 # gc.collect() while a collection is in progress does nothing
+        self.flush_deaths()
+        self.gc_phase = 1
+        self.gc_garbage = set()
+        self.gc_finalized = set()
+        try:
             gc.collect()
-            if len(self.deaths) > n0:
-                self.cyclic_collected = True
-                self.count("event:cycle-collected")
-        if self.deaths or self.fired:
-            dead = sorted(set(self.deaths))
-            if len(dead) != len(self.deaths):
-                self.fail("an object was reported dead twice")
-            fired = sorted(self.fired)
-            if fired:
-                self.dtor_at_dealloc = True
-                self.count("event:destructor-at-dealloc", len(fired))
-            self.emit("collect " + " ".join(str(i) for i in dead), " ".join(["ok"] + [str(i) for i in fired]),
-                      "collect")
-            del self.deaths[:]
-            del self.fired[:]
+        finally:
+            garbage = bool(self.gc_garbage)
+            self.gc_phase = None
+        if garbage:
+            self.cyclic_collected = True
+            self.count("event:cycle-collected")
+        self.flush_deaths()
+
+    def settle(self, collect):
+        """Report what the implementation deallocated (its choice)."""
+        self.flush_deaths()
+        if collect:
+            self.do_collect()
 
     def check_clauses(self):
         for r in self.recs.values():
@@ -578,73 +744,186 @@ class Hist(object):
     WEIGHTS = [("new_py", 10), ("new_plain", 5), ("new_struct", 6), ("alloc_plain", 5), ("alloc_struct", 5),
                ("gc", 16), ("gc_none", 4), ("release", 6), ("with", 4), ("twice", 3), ("drop", 16), ("store", 12),
                ("clear", 3), ("alias", 5), ("new_handle", 6), ("from_handle", 5), ("from_buffer", 7),
-               ("resize", 8), ("reject", 4), ("touch", 4)]
+               ("resize", 8), ("reject", 4), ("touch", 4), ("thread", 1)]
+
+    def op_table(self):
+        return {"new_py": self.op_new_py, "new_plain": self.op_new_plain, "new_struct": self.op_new_struct,
+                "alloc_plain": lambda: self.op_alloc(False), "alloc_struct": lambda: self.op_alloc(True),
+                "gc": self.op_gc, "gc_none": self.op_gc_none, "release": lambda: self.op_release("release"),
+                "with": lambda: self.op_release("with"), "twice": lambda: self.op_release("twice"),
+                "drop": self.op_drop, "store": self.op_store, "clear": self.op_clear, "alias": self.op_alias,
+                "new_handle": self.op_new_handle, "from_handle": self.op_from_handle,
+                "from_buffer": self.op_from_buffer, "resize": self.op_resize, "reject": self.op_reject,
+                "touch": self.op_touch, "thread": self.op_thread_release}
+
+    def random_op(self, nested=False):
+        names = [n for n, _ in self.WEIGHTS]
+        weights = [w for _, w in self.WEIGHTS]
+        for _ in range(20):
+            name = self.rng.choices(names, weights)[0]
+            if nested and name == "thread":
+                continue
+            ok = self.op_table()[name]()
+            if ok is False:
+                continue
+            self.opnames.append(("in:" if nested else "") + name)
+            self.count(("nested-op:" if nested else "op:") + name)
+            self.flush_deaths()
+            return name
+        return None
+
+    def op_thread_release(self, alloc=False, how=None):
+        """Two threads: A is inside the destructor (blocked, GIL released) when B releases the same wrapper."""
+        if self.depth or self.thread_done:
+            return False
+        self.thread_done = True
+        self.op_new_py("dtor", script=["block"])
+        d = (len(self.slots) - 1,) + self.slots[-1]
+        if alloc:
+            self.op_alloc(False, free=d)
+        else:
+            self.op_new_plain()
+            p = (len(self.slots) - 1,) + self.slots[-1]
+            self.op_gc(p, d)
+        g = (len(self.slots) - 1,) + self.slots[-1]
+        started, proceed = threading.Event(), threading.Event()
+        d[2].block = (started, proceed)
+        errors = []
+        how = how or self.rng.choice(["release", "with"])
+
+        def second():
+            try:
+                if not started.wait(30):
+                    errors.append("the destructor was not entered")
+                    return
+                self.op_release(how, g)
+            except BaseException as e:
+                errors.append("%s: %s" % (type(e).__name__, e))
+            finally:
+                proceed.set()
+        t = threading.Thread(target=second)
+        t.start()
+        try:
+            self.op_release("release", g)
+        finally:
+            proceed.set()
+            t.join(60)
+        if t.is_alive() or self.timeout or (errors and "not entered" in errors[0]):
+            raise InfraTimeout(self.timeout or (errors[0] if errors else "second thread still running"))
+        if errors:
+            raise RuntimeError(errors[0])
+        self.count("event:two-thread-release")
+        return True
+
+    def finish(self):
+        # end of the history: drop everything, collect, every armed wrapper must have fired exactly once
+        while self.slots and not self.broken:
+            self.op_drop(len(self.slots) - 1)
+        del self.slots[:]
+        self.allocators.clear()
+        if not self.broken:
+            self.settle(True)
+            self.settle(True)
+            self.check_clauses()
+        for r in self.recs.values():
+            if r.kind == "gcp" and not self.broken:
+                self.emit("calls %d" % r.mid, "ok %d" % r.calls, "calls")
+                if not r.dead:
+                    # not a clause of the property: a cycle through a non-GC cdata type (the pointer returned
+                    # by allocator("struct s *") is a CDataOwning object) is never found by the collector
+                    self.count("event:wrapper-never-collected")
+
+    def guarded(self, name, fn):
+        try:
+            return fn()
+        except InfraTimeout:
+            raise
+        except Exception as e:
+            # the implementation refused an operation it must accept: the history cannot be followed
+            # any further (not a clause of the property by itself; reported as a disagreement)
+            self.broken = "operation %s raised %s: %s" % (name, type(e).__name__, e)
+            self.emit("noop", "impl-raised " + type(e).__name__, "broken")
+            return None
 
     def run(self):
         nops = self.rng.randint(15, MAXOPS)
-        names = [n for n, _ in self.WEIGHTS]
-        weights = [w for _, w in self.WEIGHTS]
         p_collect = self.rng.choice([0.15, 0.4, 1.0])
         was = gc.isenabled()
         gc.disable()
         try:
             gc.collect()
             self.emit("reset", "ok")
-            done = 0
-            tries = 0
-            while done < nops and tries < 10 * nops:
-                tries += 1
-                name = self.rng.choices(names, weights)[0]
-                fn = {"new_py": self.op_new_py, "new_plain": self.op_new_plain, "new_struct": self.op_new_struct,
-                      "alloc_plain": lambda: self.op_alloc(False), "alloc_struct": lambda: self.op_alloc(True),
-                      "gc": self.op_gc, "gc_none": self.op_gc_none, "release": lambda: self.op_release("release"),
-                      "with": lambda: self.op_release("with"), "twice": lambda: self.op_release("twice"),
-                      "drop": self.op_drop, "store": self.op_store, "clear": self.op_clear, "alias": self.op_alias,
-                      "new_handle": self.op_new_handle, "from_handle": self.op_from_handle,
-                      "from_buffer": self.op_from_buffer, "resize": self.op_resize, "reject": self.op_reject,
-                      "touch": self.op_touch}[name]
-                try:
-                    ok = fn()
-                except Exception as e:
-                    # the implementation refused an operation it must accept: the history cannot be followed
-                    # any further (not a clause of the property by itself; reported as a disagreement)
-                    self.broken = "operation %s raised %s: %s" % (name, type(e).__name__, e)
-                    self.emit("noop", "impl-raised " + type(e).__name__, "broken")
-                    break
-                if ok is False:
-                    continue
-                done += 1
-                self.opnames.append(name)
-                self.count("op:" + name)
-                self.settle(self.rng.random() < p_collect)
-                self.check_clauses()
-            # end of the history: drop everything, collect, every armed wrapper must have fired exactly once
-            while self.slots and not self.broken:
-                mid, _ = self.slots.pop()
-                self.emit("drop_ref %d" % mid, "ok")
-                self.settle(False)
-            del self.slots[:]
-            self.allocators.clear()
-            if not self.broken:
-                self.settle(True)
-                self.settle(True)
-                self.check_clauses()
-            for r in self.recs.values():
-                if r.kind == "gcp" and not self.broken:
-                    self.emit("calls %d" % r.mid, "ok %d" % r.calls, "calls")
-                    if not r.dead:
-                        # not a clause of the property: a cycle through a non-GC cdata type (the pointer returned
-                        # by allocator("struct s *") is a CDataOwning object) is never found by the collector
-                        self.count("event:wrapper-never-collected")
+            if self.flavor.startswith("scenario"):
+                self.guarded(self.flavor, lambda: self.scenario(int(self.flavor.split(":")[1])))
+                if not self.broken:
+                    self.settle(True)
+                    self.check_clauses()
+            else:
+                tries = 0
+                while len(self.opnames) + self.nested_ops < nops and tries < 10 * nops and not self.broken:
+                    tries += 1
+                    if self.guarded("random_op", self.random_op) is None:
+                        break
+                    self.settle(self.rng.random() < p_collect)
+                    self.check_clauses()
+            self.guarded("finish", self.finish)
         finally:
             if was:
                 gc.enable()
         return self.result()
 
+    # ---- fixed histories, run in every check: operations issued from inside destructor / free callbacks
+    def last(self):
+        return (len(self.slots) - 1,) + self.slots[-1]
+
+    def scenario(self, n):
+        if n == 0:      # the destructor releases / with-exits its own wrapper while ffi.release() runs it
+            self.op_new_plain(); p = self.last()
+            self.op_new_py("dtor", script=["release_self", "with_self", "twice_self"]); d = self.last()
+            self.op_gc(p, d); g = self.last()
+            self.op_release("release", g)
+            self.op_release("twice", g)
+        elif n == 1:    # the free callback does `with arr:` on the allocation being released
+            self.op_new_py("dtor", script=["with_self", "release_self"]); f = self.last()
+            self.op_alloc(False, free=f); a = self.last()
+            self.op_release("with", a)
+            self.op_release("release", a)
+        elif n == 2:    # allocator("struct s *"): the free callback releases the pointer and p[0] again
+            self.op_new_py("dtor", script=["release_self", "with_self"]); f = self.last()
+            self.op_alloc(True, free=f); a = self.last()
+            self.op_alias()
+            self.op_release("release", a)
+            self.op_release("with", self.last())
+        elif n == 3:    # cycle wrapper -> destructor -> wrapper: the collector's finaliser releases the wrapper
+            self.op_new_plain(); p = self.last()
+            self.op_new_py("dtor", script=["release_self", "with_self", "collect"]); d = self.last()
+            self.op_gc(p, d); g = self.last()
+            self.do_store(d, (g[1], g[2]))
+            for _ in range(3):
+                self.op_drop(len(self.slots) - 1)
+            self.do_collect()
+        elif n == 4:    # destructor called at deallocation: collects, releases another wrapper, whose destructor
+            #             releases itself and drops things
+            self.op_new_plain(); p = self.last()
+            self.op_new_py("dtor", script=["twice_self", "drop_self"]); d2 = self.last()
+            self.op_gc(p, d2); g2 = self.last()
+            self.op_new_py("dtor", script=["collect", "release_other", "drop_other", "random"]); d1 = self.last()
+            self.op_gc(p, d1)
+            self.op_drop(len(self.slots) - 1)      # the wrapper g1 dies: its destructor runs
+        elif n == 5:    # two threads, ffi.gc wrapper
+            self.thread_done = False
+            self.op_thread_release(alloc=False, how="release")
+        elif n == 6:    # two threads, allocation, second thread leaves a `with` block
+            self.thread_done = False
+            self.op_thread_release(alloc=True, how="with")
+        else:
+            raise AssertionError(n)
+
     def result(self):
         return {"hseed": self.hseed, "flavor": self.flavor, "lines": [l for l, _, _ in self.lines],
                 "expect": [e for _, e, _ in self.lines], "fails": self.fails, "counts": self.counts,
-                "ops": self.opnames, "nontrivial": self.cyclic_collected and self.dtor_at_dealloc,
+                "ops": self.opnames,
+                "nontrivial": self.cyclic_collected and self.dtor_at_dealloc and self.nested_ops > 0,
                 "broken": self.broken}
 
 
@@ -693,8 +972,16 @@ def in_child(jobs, timeout=600):
     return results, None
 
 
+NSCENARIOS = 7
+
+
 def jobs_for(ctx, n, tag):
     return [("C21/%d/%s/%d" % (ctx.seed, tag, i), "api" if i % 2 == 0 else "backend") for i in range(n)]
+
+
+def scenario_jobs():
+    return [("C21/scenario/%d/%s" % (k, fl), "scenario:%d:%s" % (k, fl))
+            for k in range(NSCENARIOS) for fl in ("api", "backend")]
 
 
 def case_of(res, extra=None):
@@ -723,7 +1010,7 @@ def run_all(ctx, jobs, model=True):
         ctx.evaluations += len(res["lines"]) - 1
         for k, v in res["counts"].items():
             ctx.count(k, v)
-        ctx.count("history:" + res["flavor"])
+        ctx.count("history:" + res["flavor"].split(":")[0] + ("" if ":" not in res["flavor"] else "-fixed"))
         for f in res["fails"]:
             ctx.fail(case_of(res, {"at": f["at"]}), f["detail"])
         if res.get("broken"):
@@ -750,11 +1037,11 @@ def run_all(ctx, jobs, model=True):
 # entry points
 
 def correspond(ctx):
-    run_all(ctx, jobs_for(ctx, ctx.n(200, 2500), "c"))
+    run_all(ctx, scenario_jobs() + jobs_for(ctx, ctx.n(200, 2500), "c"))
 
 
 def search(ctx):
-    run_all(ctx, jobs_for(ctx, ctx.n(1500, 8000), "s"), model=False)
+    run_all(ctx, scenario_jobs() + jobs_for(ctx, ctx.n(1500, 8000), "s"), model=False)
 
 
 def replay(ctx, obj):
